@@ -558,7 +558,8 @@ def register(cat):
         if k == "init_string":
             return ttb.cp_apr(x, 1, init="ones", printitn=0, maxiters=1)
         if k == "negative_data":
-            return ttb.cp_apr(x * -1.0 - 1.0 if isinstance(x, ttb.tensor) else (x * -1.0), 1, printitn=0, maxiters=1)
+            neg = ttb.tensor(-np.abs(x.data) - 1.0) if isinstance(x, ttb.tensor) else x.elemfun(lambda v: -np.abs(v) - 1.0)
+            return ttb.cp_apr(neg, 1, printitn=0, maxiters=1)
         if k == "guess_shape":
             return ttb.cp_apr(x, ops[1].ncomponents, init=ops[1], printitn=0, maxiters=1)
         return ttb.cp_apr(x, ops[1].ncomponents + 1, init=ops[1], printitn=0, maxiters=1)
@@ -568,7 +569,7 @@ def register(cat):
             return shp(ops[0]) != shp(ops[1])
         if st["kind"] == "negative_data":
             x = ops[0]
-            return isinstance(x, ttb.tensor) or (x.nnz > 0 and bool(np.any(x.vals > 0)))
+            return isinstance(x, ttb.tensor) or x.nnz > 0
         return ops[0].ndims >= 2
 
     bad("cp_apr_options", ("T", "S"), lambda c, r: gen_alg(c, r, ["rank", "algorithm", "init_string", "negative_data", "guess_shape", "guess_rank"]), run_cp_apr, bad_apr)
